@@ -216,7 +216,7 @@ Proof.
     rewrite filter_all by auto. apply map_id'. intros [i vals] _. unfold null_row; cbn.
     rewrite null_vals_none; auto.
   - apply map_id'. intros [k rs] _. cbn. f_equal. apply filter_all; auto.
-  - destruct dc; auto. apply filter_all; auto.
+  - apply filter_all; auto.
 Qed.
 
 (* extensionality: only the SetNull columns of the holder class consult sg_null *)
@@ -236,7 +236,7 @@ Proof.
     apply null_vals_ext. intros c y Hc Hs. apply Hn.
     unfold relevantb. apply existsb_exists. exists c. split; auto. rewrite Hs, N.eqb_refl; auto.
   - apply map_ext. intros [t ls]; cbn. f_equal. apply filter_ext_in'. intros p _. rewrite !Hl; auto.
-  - destruct dc; auto. apply filter_ext_in'. intros q _. rewrite Hd; auto.
+  - apply filter_ext_in'. intros q _. rewrite Hd; auto.
 Qed.
 
 (* S1: DELETE FROM link table *)
@@ -252,17 +252,17 @@ Proof.
     destruct (sg_link sg t false a), (sg_link sg t true b); reflexivity.
 Qed.
 
-(* S2: DELETE FROM class table + cache.expire *)
+(* S2: DELETE FROM class table + cache.purge *)
 Lemma step_delete_row : forall k0 x sg st,
-  cache_expire dc (k0, x) (sql_delete_row k0 x (ap sg st)) = ap (add_del k0 x sg) st.
+  cache_purge dc (k0, x) (sql_delete_row k0 x (ap sg st)) = ap (add_del k0 x sg) st.
 Proof.
-  intros. unfold cache_expire, sql_delete_row, map_tabs, apply; cbn. f_equal.
+  intros. unfold cache_purge, sql_delete_row, map_tabs, apply; cbn. f_equal.
   - rewrite map_map. apply map_ext. intros [k rs]; cbn. f_equal.
     destruct (N.eqb k k0) eqn:E; cbn.
     + rewrite filter_map'. cbn. rewrite filter_filter'. f_equal.
       apply filter_ext_in'. intros r _. rewrite negb_orb. auto.
     + f_equal. apply filter_ext_in'. intros r _. rewrite orb_false_r; auto.
-  - destruct dc; auto. rewrite filter_filter'. apply filter_ext_in'. intros [k i] _; cbn.
+  - rewrite filter_filter'. apply filter_ext_in'. intros [k i] _; cbn.
     rewrite negb_orb. unfold node_eqb; cbn. auto.
 Qed.
 
